@@ -125,6 +125,11 @@ def run(ctx):
                 if nd.get('k') in ('Assign', 'AssignOp') and H.peel(nd['l']).get('k') == 'Field' and H.peel(nd['l'])['name'] == 'frame_max':
                     r.bad('frame_max-reassigned:%s' % p, ctx.site(p, nd), built=H.term(nd), why='the negotiated limit must not change after the handshake')
 
+    with ctx.rule('R15.5', 'heartbeat timing follows the announced interval: each activity stamps its own timer, expiry actions (shared with C17)', floor=10) as r:
+        from rules import arms as A
+        A.include(ctx, r, 'c17', 'R17.2')
+        A.include(ctx, r, 'c17', 'R17.3')
+
     with ctx.rule('R15.4', 'no channel id above channel_max can be opened', floor=2) as r:
         g = panics.insert_guards(ctx)
         r.check('explicit-id-bounded', g['max'], ctx.site('io_loop::channel_slots::ChannelSlots::insert'), built=g['guards'])
